@@ -52,3 +52,14 @@ Proof. exact c18_oracle_model_init. Qed.
 
 Print Assumptions C18_calls_only_in_service.
 Print Assumptions C18_oracle_holds_on_model.
+
+(** *** ... histories with concurrent pairs included (Ctl/OracleProofsX18.v) *)
+From Jiva Require Import Ctl.OracleProofsX18.
+
+Theorem C18_oracle_holds_on_model_with_pairs : forall xs rf0 n w0 qs, (1 <= rf0)%nat ->
+  forallb (x_all ev_wf) xs = true -> forallb (x_all (ev_addrs_lt n)) xs = true ->
+  walk_q (fun q => lift (c18_step rf0 q) (fun prev a b cur => c18_step rf0 q prev (SetMode 0%nat WO) cur))
+         0 (obs0 rf0 n w0) xs (trace n (init rf0 w0) xs) qs = None.
+Proof. exact c18_oracle_model_x_init. Qed.
+
+Print Assumptions C18_oracle_holds_on_model_with_pairs.
